@@ -25,15 +25,27 @@ def _c10_insert_lost(rec):
     """An insertion scheduled at exactly the start of a range deleted in the same pass is applied after the
     deletion's whitespace clean-up shifted the offsets; when the following line carries an ignore comment the
     shifted insertion is silently refused."""
-    if rec.get("kind") != "result_differs_from_spliced_schedule":
+    kind = rec.get("kind")
+    if kind not in ("result_differs_from_spliced_schedule", "rolled_back_although_the_spliced_schedule_is_valid"):
         return False
     sched = (rec.get("detail") or {}).get("scheduled") or []
     src = rec.get("input") or ""
-    if not re.search(r"#\s*pyrefact\s*:\s*ignore", src):
-        return False
     dels = {tuple(r)[0] for r, new in sched if not new and r[0] != r[1]}
     ins = {tuple(r)[0] for r, new in sched if new and r[0] == r[1]}
-    return bool(dels & ins)
+    if not dels & ins:
+        return False
+    if kind == "result_differs_from_spliced_schedule" and re.search(r"#\s*pyrefact\s*:\s*ignore", src):
+        return True  # the shifted insertion landed on an ignored line and was refused silently
+    # the deletion must have emptied its line (that is when the clean-up removes the line and shifts what follows): the insertion lands in the next line, and
+    # the pass is rolled back although the splice is valid, or goes through although the splice is not
+    for r, new in sched:
+        if not new and r[0] != r[1] and r[0] in ins:
+            line_start = src.rfind("\n", 0, r[0]) + 1
+            line_end = src.find("\n", r[1])
+            rest = src[line_start:r[0]] + src[r[1]:line_end if line_end >= 0 else len(src)]
+            if not rest.strip() or rest.strip().startswith("#"):
+                return True
+    return False
 
 
 # ----------------------------------------------------------------------------------------- C12
